@@ -1,6 +1,6 @@
 SPECIFICATION Spec
 CONSTANTS
-  Secrets = {"k1", "k2"}
+  Secrets = {"k1", "k2", "k1 ", " k1"}
   Users = {"@alice:example.org", "@Alice:example.org", "@bob:example.org"}
   Durations <- DurationsThorough
   Offsets <- OffsetsThorough
